@@ -229,9 +229,9 @@ def main(argv=None):
         nval = r["validated"]
         if r["validation_mismatch"] and len(r["validation_mismatch"]) * 2 > max(1, nval):
             harness_errors.append(f"{r['name']}: lifted vs concrete mismatch {r['validation_mismatch'][0]}")
-        for cx in r["cex"]:
+        for ci, cx in enumerate(r["cex"]):
             os.makedirs(replay_dir, exist_ok=True)
-            fname = re.sub(r"[^A-Za-z0-9_.-]", "_", f"{r['name']}__{cx['label']}") + ".json"
+            fname = re.sub(r"[^A-Za-z0-9_.-]", "_", f"{r['name']}__{cx['label']}__{ci}") + ".json"
             path = os.path.join(replay_dir, fname)
             json.dump(dict(property=pid, case=cs, label=cx["label"], model=cx["model"], info=cx.get("info"),
                            notes=cx.get("notes")), open(path, "w"), indent=1, default=str)
